@@ -46,6 +46,10 @@ type AuthCfg struct {
 	// after the iteration count (RFC 5802 section 5.1 allows them; a client ignores those it
 	// does not know, and the AuthMessage contains the message as it was sent).
 	FirstExt string `json:"firstExt,omitempty"`
+	// EchoOnCancel: a server that does not honour the client's "*": it answers with another 334
+	// whose text is the last response it received (a debugging aid of some test servers; a
+	// server may say anything).
+	EchoOnCancel bool `json:"echoOnCancel,omitempty"`
 }
 
 func (a AuthCfg) loginPrompt(i int) []byte {
